@@ -69,6 +69,8 @@ class Solution:
         self._projects = {}
 
     def __setitem__(self, key, value):
+        if key in self._projects:
+            raise ValueError('project for {!r} already exists'.format(key))
         value.set_uuid(self._uuids)
         self._projects[key] = value
 
